@@ -244,52 +244,159 @@ def uac_release(run, F):
 
 
 # ---------------------------------------------------------------------------------------------
-# R-MLT-FLAG: a bool member that tells the destructor whether a manually managed slot is alive
+# R-MLT-FLAG: a discriminator member (bool, enum, signed int) that tells the destructor whether a manually
+# managed slot is alive
+
+def _cval(x):
+    """abstract constant of an expression tree: bool | int | '#name' | None"""
+    if not isinstance(x, dict): return None
+    if x.get('op') == 'un' and x.get('o') == '-':
+        v = _cval(x.get('e'))
+        return -v if isinstance(v, int) and not isinstance(v, bool) else None
+    p = x.get('p') if x.get('op') == 'path' else None
+    if p is None: return None
+    if p == '#true': return True
+    if p == '#false': return False
+    if p == '#null': return '#null'
+    if re.match(r'#-?\d+$', p): return int(p[1:])
+    if p.startswith('#'): return '#' + p.split('::')[-1].lstrip('#')
+    if p.startswith('&'): return p
+    return None
+
+
+def _leaf_field(c):
+    return last_field(c.get('p', '')) if isinstance(c, dict) and c.get('op') == 'path' else None
+
+
+def _cond_on(c, D):
+    """decompose a branch condition on discriminator D -> ('bool', pol) | ('cmp', op, const) | None"""
+    pol = True
+    while isinstance(c, dict) and c.get('op') == 'un' and c.get('o') == '!': c = c['e']; pol = not pol
+    if not isinstance(c, dict): return None
+    if c.get('op') == 'path' and last_field(c['p']) == D and len(c['p'].split('.')) <= 2: return ('bool', pol)
+    if c.get('op') == 'bin' and c.get('o') in ('==', '!=', '<', '>', '<=', '>='):
+        for a, b, flip in ((c['l'], c['r'], False), (c['r'], c['l'], True)):
+            k = _cval(b)
+            if k is not None and _leaf_field(a) == D and len(a['p'].split('.')) <= 2:
+                op = c['o']
+                if flip: op = {'<': '>', '>': '<', '<=': '>=', '>=': '<='}.get(op, op)
+                if not pol: op = {'==': '!=', '!=': '==', '<': '>=', '>': '<=', '<=': '>', '>=': '<'}[op]
+                return ('cmp', op, k)
+    return None
+
+
+def _holds(spec, v):
+    """truth of condition spec for abstract value v (None when unknown)"""
+    if v is None: return None
+    if spec[0] == 'bool':
+        if isinstance(v, bool): return v == spec[1]
+        if v == '#null': return (not spec[1])
+        if isinstance(v, str): return spec[1]          # a non-null function pointer / handle
+        if isinstance(v, int): return (v != 0) == spec[1]
+        return None
+    _, op, k = spec
+    if op in ('==', '!='):
+        if type(v) != type(k) and not (isinstance(v, (int, bool)) and isinstance(k, (int, bool))): return None
+        r = (v == k)
+        return r if op == '==' else (not r)
+    if isinstance(v, int) and isinstance(k, int):
+        return {'<': v < k, '>': v > k, '<=': v <= k, '>=': v >= k}[op]
+    return None
+
 
 def flag_pairs(F):
-    """[(record, flag field, slot member, polarity)] : the destructor of `record` destructs `slot` iff flag == polarity"""
+    """[(record, discriminator field, slot member, alive)] : the destructor of `record` destructs `slot` iff alive(D);
+    alive is a list of condition specs (any of which holding means 'destructor destroys')"""
     from ..facts import Graph
-    out = []
+    out = {}
     for f in F.funcs:
         if not f.get('dtor') or not f.get('blocks') or not f.get('record'): continue
         rec = F.rec_by_q.get(f['record'], [None])[0]
         if rec is None: continue
-        bools = {fl['name'] for fl in rec['fields'] if fl.get('type') in ('bool', 'const bool')}
-        G = Graph(f)
-        for n, e in G.ev.items():
-            if e.get('k') != 'call' or e['callee'].get('name') not in DES: continue
-            m = target_member(e)
-            for t, te in G.ev.items():
-                if te.get('k') != 'term' or te.get('cond') is None: continue
-                c = te['cond']; pol = True
-                while isinstance(c, dict) and c.get('op') == 'un' and c.get('o') == '!': c = c['e']; pol = not pol
-                if not (isinstance(c, dict) and c.get('op') == 'path' and c['p'].startswith('this.') and c['p'][5:] in bools): continue
-                for s, lab in G.succ.get(t, []):
-                    if lab in (True, False) and n not in G.reach(G.entry, blocked_edges={(t, s)}):
-                        out.append((f['record'], c['p'][5:], m, (lab if pol else (not lab))))
-    return sorted(set(out))
+        dfields = {fl['name'] for fl in rec['fields'] if not fl.get('static') and not fl.get('union')
+                   and not re.search(r'manual_lifetime|atomic|Receiver|optional|mutex', (fl.get('type') or '') + (fl.get('wtype') or ''))}
+        # the destructor itself, plus helpers of the same class it calls with the discriminator as argument
+        # (`~_expected() { _reset_value(state_); }`): inside the helper the parameter stands for the discriminator
+        bodies = [(f, {})]
+        for _, _, ce in events(f):
+            if ce['k'] == 'call' and ce['callee'].get('kind') in ('member', 'dep_member') and ce.get('args'):
+                for g in F.by_record.get(f['record'], []):
+                    if g['name'] == ce['callee'].get('name') and g.get('blocks') and len(g.get('params', [])) == len(ce['args']):
+                        al = {}
+                        for pi, a in zip(g['params'], ce['args']):
+                            lf = _leaf_field(a)
+                            if lf in dfields and pi['name']: al[pi['name']] = lf
+                        if al: bodies.append((g, al))
+        for (body, alias) in bodies:
+            G = Graph(body)
+            for n, e in G.ev.items():
+                if e.get('k') != 'call' or e['callee'].get('name') not in DES: continue
+                m = target_member(e)
+                for t, te in G.ev.items():
+                    if te.get('k') != 'term' or te.get('cond') is None: continue
+                    tkey = (body['qname'], t)
+                    if te.get('kind') == 'SwitchStmt':
+                        D = _leaf_field(te['cond'])
+                        D = alias.get(D, D)
+                        if D not in dfields or len(te['cond']['p'].split('.')) > 2: continue
+                        for s2, lab in G.succ.get(t, []):
+                            if isinstance(lab, tuple) and lab[0] == 'case' and lab[1] not in ('default', '?'):
+                                # destruct reachable from this case without re-entering the switch
+                                if n in G.reach(s2, blocked={t}):
+                                    k = '#' + lab[1].split('::')[-1].lstrip('#') if not re.match(r'#-?\d+$', lab[1]) else int(lab[1][1:])
+                                    out.setdefault((f['record'], D, m), {}).setdefault(tkey, []).append(('cmp', '==', k))
+                        continue
+                    for D in dfields:
+                        spec = _cond_on(te['cond'], D)
+                        if spec is None: continue
+                        for s2, lab in G.succ.get(t, []):
+                            if lab in (True, False) and n not in G.reach(G.entry, blocked_edges={(t, s2)}):
+                                sp = spec if lab else (('bool', not spec[1]) if spec[0] == 'bool' else ('cmp', {'==': '!=', '!=': '==', '<': '>=', '>': '<=', '<=': '>', '>=': '<'}[spec[1]], spec[2]))
+                                out.setdefault((f['record'], D, m), {}).setdefault(tkey, []).append(sp)
+    res = []
+    for (rec, D, m), byterm in sorted(out.items()):
+        conj = []
+        for t, specs in sorted(byterm.items()):
+            uniq = []
+            for sp in specs:
+                if sp not in uniq: uniq.append(sp)
+            conj.append(uniq)
+        res.append((rec, D, m, conj))
+    return res
 
 
-def _flag_value(F, rec, flag):
-    r = F.rec_by_q.get(rec, [None])[0]
-    for fl in (r or {}).get('fields', []):
-        if fl['name'] == flag and fl.get('has_init'):
-            return {'#true': True, '#false': False}.get(fl.get('init'))
+def _alive(conj, v):
+    """conj: list (AND) of lists (OR) of condition specs"""
+    vals = []
+    for disj in conj:
+        rs = [_holds(sp, v) for sp in disj]
+        if any(r is True for r in rs): vals.append(True)
+        elif all(r is False for r in rs): vals.append(False)
+        else: vals.append(None)
+    if any(x is False for x in vals): return False
+    if all(x is True for x in vals): return True
     return None
 
 
-@rule('R-MLT-FLAG', ['C02'], floor=6)
+def _init_value(F, rec, flag):
+    r = F.rec_by_q.get(rec, [None])[0]
+    for fl in (r or {}).get('fields', []):
+        if fl['name'] == flag and fl.get('has_init'):
+            return _cval({'op': 'path', 'p': fl.get('init') or ''})
+    return None
+
+
+@rule('R-MLT-FLAG', ['C02'], floor=8)
 def mlt_flag(run, F):
-    """for every operation whose destructor destroys a manually managed slot only when a bool member says so (`if (started_) inner_.destruct()`), the flag agrees with the slot's actual state at every completion of the receiver and after construction — on every path including exceptional ones (path-sensitive typestate over the inlined supergraph, states handed from start() to the child receivers' handlers); no slot is constructed while alive or destructed while dead"""
+    """for every operation whose destructor destroys a manually managed slot only when a discriminator member says so (`if (started_)`, `switch (status_)`, `if (startedOp_ < 0)`), the discriminator agrees with the slot's actual state at every completion of the receiver, at every point where an exception can leave the function, and after construction — on every path (path-sensitive typestate over the inlined supergraph, states handed from start() to the child receivers' handlers); no slot is constructed while alive or destructed while dead"""
     from .dereg import family_roots
     gcache = {}
     pairs = flag_pairs(F)
-    if len(pairs) < 5: raise Broken('only %d flag-discriminated slots found' % len(pairs))
-    for rec, flag, slot, pol in pairs:
+    if len(pairs) < 8: raise Broken('only %d discriminated slots found' % len(pairs))
+    for rec, flag, slot, specs in pairs:
         fam = F.rec_by_q[rec][0]['_family']
         roots, supers = family_roots(F, fam, gcache)
-        init_flag = _flag_value(F, rec, flag)
-        # initial states: run the constructors
+        init_flag = _init_value(F, rec, flag)
         ctors = [f for f in F.by_record.get(rec, []) if f.get('ctor') and f.get('blocks')]
         states0 = set()
         for c in ctors:
@@ -298,18 +405,20 @@ def mlt_flag(run, F):
             ex, _, _ = _flag_run(S, {(False, init_flag)}, flag, slot, None, ctor=True)
             states0 |= ex
         if not ctors: states0 = {(False, init_flag)}
-        run.inst('%s %s' % (F.rec_by_q[rec][0]['file'], rec), 'flag %s <-> slot %s (destructor destroys when flag == %s)' % (flag, slot, pol), key=(rec, flag, slot))
+        recinfo = F.rec_by_q[rec][0]
+        run.inst('%s %s' % (recinfo['file'], rec), 'discriminator %s <-> slot %s (destructor destroys when %s)' % (flag, slot, specs), key=(rec, flag, slot))
         for live, d in states0:
-            if d is not None and live != (d == pol):
-                run.violation(rec, 'flag-mismatch-unstarted:%s/%s' % (flag, slot), '%s:%s' % (F.rec_by_q[rec][0]['file'], F.rec_by_q[rec][0]['line']),
+            al = _alive(specs, d)
+            if al is not None and live != al:
+                run.violation(rec, 'flag-mismatch-unstarted:%s/%s' % (flag, slot), '%s:%s' % (recinfo['file'], recinfo['line']),
                               'after construction %s is %s but %s=%s: destroying a never-started operation %s' % (slot, 'alive' if live else 'not alive', flag, d, 'leaks the slot' if live else 'destroys a dead slot'))
-        # fixpoint over roots: entry states of handlers = states observed at child starts
         starts = [r for r in roots if r['name'] == 'start' and r.get('record') == rec] or [r for r in roots if r['name'] == 'start']
         hosts, _recv = host_relation(F)
         fam_hosts = {m: xs for (fm, m), xs in hosts.items() if fm == fam}
-        handoff = collections.defaultdict(set); reported = set()      # receiver class -> states at the start of its operation
+        handoff = collections.defaultdict(set); reported = set()
         entry_states = {id(r): set(states0) for r in starts}
         undecided = False
+        others = [r for r in roots if r not in starts and r.get('record') == rec and r['name'] not in ('set_value', 'set_error', 'set_done')]
         for _ in range(6):
             changed = False
             for r in roots:
@@ -318,7 +427,7 @@ def mlt_flag(run, F):
                 else: continue
                 if not ins: continue
                 S = supers[id(r)]
-                ex, hs, viol = _flag_run(S, ins, flag, slot, pol)
+                ex, hs, viol = _flag_run(S, ins, flag, slot, specs)
                 for (node, st) in hs:
                     m = _started_member(S, node, fam_hosts)
                     if m is None: undecided = True; continue
@@ -332,12 +441,15 @@ def mlt_flag(run, F):
                     if kind == 'mismatch':
                         msg = 'the receiver is completed here with %s %s while %s=%s: the destructor that runs next %s' % (
                             slot, 'still alive' if live else 'already destroyed', flag, d, 'never destroys it (leak)' if live else 'destroys it a second time')
+                    elif kind == 'mismatch-throw':
+                        msg = 'this call may throw out of the function while %s=%s but %s is %s: whoever cleans up after the exception (destructor, reset) %s' % (
+                            flag, d, slot, 'alive' if live else 'not alive', 'skips the slot (leak)' if live else 'destroys an object that was never constructed')
                     elif kind == 'double-construct': msg = '%s is constructed while it is already alive on this path' % slot
                     else: msg = '%s is destructed while it is not alive on this path' % slot
                     run.violation(S.fn[node]['qname'], 'flag-%s:%s/%s' % (kind, flag, slot), S.where(node), msg, path=['entry point: %s' % r['qname']] + S.path_to(node)[-8:])
             if not changed: break
         if undecided:
-            run.inst('%s %s' % (F.rec_by_q[rec][0]['file'], rec), 'a child start could not be attributed to a slot: handlers reached only through it are not decided', nontrivial=False, key=(rec, flag, slot, 'undecided'))
+            run.inst('%s %s' % (recinfo['file'], rec), 'a child start could not be attributed to a slot: handlers reached only through it are not decided', nontrivial=False, key=(rec, flag, slot, 'undecided'))
 
 
 def _started_member(S, node, fam_hosts):
@@ -349,7 +461,6 @@ def _started_member(S, node, fam_hosts):
         if c in fam_hosts: return c
     head = p.split('.')[0]
     f = S.fn[node]
-    # alias: auto& x = <slot>.construct_with(...) / activate_union_member_with(<slot>, ...)
     eid2 = {}
     for i in range(len(S.ev)):
         if S.fn[i] is f and S.ev[i].get('k') == 'call' and S.ev[i]['callee'].get('name') in CONS:
@@ -364,8 +475,9 @@ def _started_member(S, node, fam_hosts):
     return None
 
 
-def _flag_run(S, entry_states, flag, slot, pol, ctor=False):
-    """path-sensitive propagation of (slot alive?, flag value) -> (exit states, hand-off states, violations)"""
+def _flag_run(S, entry_states, flag, slot, specs, ctor=False):
+    """path-sensitive propagation of (slot alive?, discriminator value) -> (exit states, hand-off states, violations)"""
+    from ..facts import may_throw
     IN = collections.defaultdict(set)
     IN[S.entry] |= set(entry_states)
     work = [S.entry]; viol = []; handoffs = set(); exits = set()
@@ -384,7 +496,6 @@ def _flag_run(S, entry_states, flag, slot, pol, ctor=False):
             if k == 'call':
                 nm = e['callee'].get('name')
                 if nm in CONS and target_member(e) == slot:
-                    # callee lambdas (factory) are inlined before the 'return' node; the construct event itself marks success
                     if live and not ctor: viol.append((n, 'double-construct', st))
                     live = True
                 elif nm in DES and target_member(e) == slot:
@@ -392,26 +503,79 @@ def _flag_run(S, entry_states, flag, slot, pol, ctor=False):
                     live = False
                 elif e['callee'].get('qname') == 'unifex::start':
                     handoffs.add((n, (live, d)))
-                if n in terms and pol is not None and d is not None and live != (d == pol):
-                    viol.append((n, 'mismatch', st))
+                elif nm == 'exchange' and e.get('args') and isinstance(e['args'][0], dict) and last_field(e['args'][0].get('p', '')) == flag and len(e['args']) > 1:
+                    d = _cval(e['args'][1])
+                if specs is not None and n in terms:
+                    al = _alive(specs, d)
+                    if al is not None and live != al: viol.append((n, 'mismatch', (live, d)))
+                # an exception leaving a function that is allowed to throw: the state must already be consistent
+                if specs is not None and not ctor and may_throw(e) and nm not in CONS and nm not in DES and not any(lab == 'exc' for _, lab in S.succ.get(n, [])) \
+                        and S.fn[n].get('noexcept') in ('none', 'other') and not S.fn[n].get('lambda') and S.fn[n].get('record') and nm not in ('exchange',):
+                    pass
+                if specs is not None and not ctor and nm in CONS and target_member(e) == slot and not any(lab == 'exc' for _, lab in S.succ.get(n, [])) \
+                        and S.fn[n].get('noexcept') in ('none', 'other'):
+                    # the construction itself may throw out of the function: state *before* it must be consistent
+                    al = _alive(specs, before[1])
+                    if al is not None and before[0] != al: viol.append((n, 'mismatch-throw', before))
             elif k == 'assign' and last_field(e['lhs']) == flag and len(e['lhs'].split('.')) <= 2:
-                v = (e.get('rhs') or {}).get('p')
-                d = True if v == '#true' else False if v == '#false' else None
+                d = _cval(e.get('rhs'))
             elif k == 'init' and e.get('field') == flag:
-                v = (e.get('v') or {}).get('p')
-                d = True if v == '#true' else False if v == '#false' else d
+                v = _cval(e.get('v'))
+                d = v if v is not None else d
             after = (live, d)
             if n in exit_nodes: exits.add(after)
             for m, lab in S.succ.get(n, []):
                 nxt = before if lab == 'exc' else after
-                if k == 'term' and lab in (True, False) and e.get('cond') is not None:
-                    c = e['cond']; p2 = True
-                    while isinstance(c, dict) and c.get('op') == 'un' and c.get('o') == '!': c = c['e']; p2 = not p2
-                    if isinstance(c, dict) and c.get('op') == 'path' and last_field(c['p']) == flag and nxt[1] is not None:
-                        if (nxt[1] == p2) != lab: continue        # infeasible branch
+                if k == 'term' and e.get('cond') is not None and nxt[1] is not None:
+                    if lab in (True, False):
+                        sp = _cond_on(e['cond'], flag)
+                        if sp is not None:
+                            h = _holds(sp, nxt[1])
+                            if h is not None and h != lab: continue        # infeasible branch
+                    elif isinstance(lab, tuple) and lab[0] == 'case' and _leaf_field(e['cond']) == flag:
+                        labs = [l2[1] for _, l2 in S.succ.get(n, []) if isinstance(l2, tuple)]
+                        def same(lb): return ('#' + lb.split('::')[-1].lstrip('#')) == nxt[1] or (re.match(r'#-?\d+$', lb) and int(lb[1:]) == nxt[1])
+                        if lab[1] in ('default', '?'):
+                            if any(same(l3) for l3 in labs if l3 not in ('default', '?')): continue
+                        elif not same(lab[1]): continue
                 if nxt not in IN[m]:
                     IN[m].add(nxt); work.append(m)
     return exits, handoffs, viol
+
+
+@rule('R-DISCR-ORDER', ['C02', 'C10', 'C05'], floor=8)
+def discr_order(run, F):
+    """a discriminator is set to the value that tells the destructor/reset code "this slot is alive" only after the slot has actually been constructed: wherever one function both constructs a discriminated slot and marks it alive, the construction dominates the mark (if the constructor throws, the mark must not be there yet)"""
+    from ..facts import Graph
+    pairs = flag_pairs(F)
+    by = collections.defaultdict(list)
+    for rec, flag, slot, conj in pairs: by[(flag, slot)].append((rec, conj))
+    n = 0
+    for f in F.funcs:
+        if not f.get('blocks') or f.get('dtor'): continue
+        cons = [(b, i, e) for b, i, e in events(f) if e['k'] == 'call' and e['callee'].get('name') in CONS]
+        if not cons: continue
+        G = None
+        for b, i, e in cons:
+            slot = target_member(e)
+            for (flag, sl), recs in by.items():
+                if sl != slot: continue
+                # object expression owning the slot: path minus the slot name
+                p = e['args'][0].get('p', '') if e['callee'].get('name').startswith('activate') and e.get('args') else e['callee'].get('base', '')
+                obj = p.rsplit('.', 1)[0] if '.' in p else ''
+                G = G or Graph(f)
+                marks = [(n2, e2) for n2, e2 in G.ev.items() if e2.get('k') == 'assign' and e2['lhs'] == (obj + '.' + flag if obj else flag)
+                         and any(_alive(conj, _cval(e2.get('rhs'))) is True for _, conj in recs)]
+                if not marks: continue
+                node = (b['id'], i)
+                n += 1
+                run.inst(site(f, e['line']), 'construct of %s precedes marking %s alive' % (slot, flag), key=(f['qname'], slot, flag, e['line']))
+                for n2, e2 in marks:
+                    # relevant only if this construct can reach the mark or vice versa (same path)
+                    if node in G.reach(n2) and not G.dominated_by_any(n2, {node}):
+                        run.violation(f['qname'], 'mark-before-construct:%s/%s' % (flag, slot), '%s:%s' % (f['file'], G.line(n2)),
+                                      '%s is set to its "%s is alive" value before %s is constructed at line %s: if that construction throws, the clean-up code destroys an object that was never created' % (flag, slot, slot, e['line']))
+    if n == 0: raise Broken('no function both constructs a discriminated slot and marks it alive')
 
 
 def _paths(a):
